@@ -47,6 +47,14 @@ var c20Pool = []c20Line{
 	{bn.BAbs + " = nil;", "ok", ""},
 	{bn.KwPrint + " " + bn.BMax + "(1, 2) + " + bn.BMin + "(3, 4);", "ok", ""},
 	{bn.BMax + " = " + bn.BMin + ";", "ok", ""},
+	{"/* open comment", "lexical", ""},
+	{bn.KwPrint + " 1; /* c */ " + bn.KwPrint + " 2; // tail", "ok", ""},
+	{bn.KwVar + " a = [1, 2]; a[5];", "runtime", ""},
+	{bn.KwFun + " g() { " + bn.KwPrint + " \"in g\"; nope; } g();", "runtime", ""},
+	{bn.KwWhile + " (" + bn.KwTrue + ") { " + bn.KwBreak + "; }", "ok", ""},
+	{bn.KwFor + " (" + bn.KwVar + " i = 0; i < 2; i = i + 1) " + bn.KwPrint + " i;", "ok", ""},
+	{"{k: 1}.k;", "syntax", ""},
+	{"({k: 1}).k;", "echo", bn.KwPrint + " ({k: 1}).k;"},
 	{"", "empty", ""},
 	{"   ", "empty", ""},
 }
